@@ -189,6 +189,37 @@ func (s *Session) ScanFieldModes(prop string) *FuncResult {
 			}
 		}
 	}
+	// package-level variables declared immutable: no store outside the package initialiser
+	for _, gname := range sortedKeys(s.CS.Globals) {
+		props := s.CS.Globals[gname]
+		if !hasProp(props, prop) {
+			continue
+		}
+		found := false
+		for _, fn := range s.P.AllFns {
+			for _, b := range fn.Blocks {
+				for _, in := range b.Instrs {
+					for _, op := range in.Operands(nil) {
+						if g, ok := (*op).(*ssa.Global); ok && g.Name() == gname && s.P.Verified[g.Pkg.Pkg.Path()] {
+							found = true
+							if st, ok := in.(*ssa.Store); ok && st.Addr == ssa.Value(g) && fn.Name() != "init" {
+								add(fmt.Sprintf("globals/immutable[%s]@%s", gname, s.P.ShortName(fn)), false, in.Pos(), "package-level variable "+gname+" is assigned in "+s.P.ShortName(fn)+" ("+s.P.PosStr(in.Pos())+")", props)
+							}
+							// taking the address for anything but a load lets it be written elsewhere
+							if _, isLoad := in.(*ssa.UnOp); !isLoad {
+								if _, isStore := in.(*ssa.Store); !isStore {
+									if _, isDbg := in.(*ssa.DebugRef); !isDbg {
+										add(fmt.Sprintf("globals/immutable[%s]@%s", gname, s.P.ShortName(fn)), false, in.Pos(), "the address of package-level variable "+gname+" escapes in "+s.P.ShortName(fn), props)
+									}
+								}
+							}
+						}
+					}
+				}
+			}
+		}
+		add(fmt.Sprintf("globals/immutable[%s]/scan-complete", gname), found, token.NoPos, fmt.Sprintf("%d functions scanned", len(s.P.AllFns)), props)
+	}
 	// one positive obligation per declared field so that the scan is never vacuous
 	for _, name := range sortedKeys(s.CS.FieldModes) {
 		for _, m := range s.CS.FieldModes[name] {
